@@ -47,6 +47,11 @@ class World(BaseWorld):
                         'user': simroot.gen_user_solver(ro, n_unknowns), 'via': ro.choice(['prism', 'prism', 'system']),
                         # solve the PRISM object of the previous solve again (if there is one and nothing was edited since)
                         'reuse': s > 0 and ro.random() < 0.5})
+            if self.do_c03 and ro.random() < 0.4:
+                # the user post-processes the solved object with other calculators, then looks at g(r) inside the cores
+                fns = [ro.choice(['second_virial', 'second_virial', 'structure_factor', 'pmf', 'chi', 'spinodal_condition', 'solvation_potential'])
+                       for _ in range(ro.randrange(1, 4))]
+                ops.append({'op': 'post', 'fns': fns})
             if self.do_c03 and ro.random() < 0.3:
                 ops.append({'op': 'cost', 'kind': ro.choice(['big', 'spike', 'sign']), 'amp': ro.choice([1.0, 30.0, 1e3])})
         batch = 'fault_free' if plan['mode'] == 'real' else ('fault_injecting' if plan['mode'] == 'buggify' else 'scripted_solver')
@@ -99,6 +104,9 @@ class World(BaseWorld):
                     if op['op'] == 'cost':
                         self.op_cost(pp, spec, system, state, op, step, seed, grid, r_user, masks, ctx, mon)
                         continue
+                    if op['op'] == 'post':
+                        self.op_post(pp, spec, state, op, step, grid, r_user, ctx)
+                        continue
                     if op['op'] == 'edit':
                         spec = copy.deepcopy(spec)
                         t = types[op['t'] % n]
@@ -115,6 +123,7 @@ class World(BaseWorld):
                             system.kT = spec['kT']
                         masks = oracles.core_masks(spec, r_user)
                         state['P'] = None
+                        state['last_ok'] = None
                         ctx.probe('edit_same_system_' + op['what'])
                         continue
                     if op['op'] == 'regrid':
@@ -127,6 +136,7 @@ class World(BaseWorld):
                         r_user = np.array(system.domain.r, dtype=float, copy=True)
                         masks = oracles.core_masks(spec, r_user)
                         state['P'] = None
+                        state['last_ok'] = None
                         ctx.probe('regrid_same_length')
                         continue
                     guess = None
@@ -171,9 +181,11 @@ class World(BaseWorld):
                     ctx.log(step=step, success=ok, calls=rec.ncalls if rec else None)
                     if not ok:
                         ctx.probe('not_converged')
+                        state['last_ok'] = None
                         continue
                     ctx.probe('converged')
                     ctx.probe('converged_' + op['user']['method'])
+                    state['last_ok'] = (P, res)
                     state['prev_x'] = np.array(res.x, dtype=float, copy=True)
                     maxF = float(np.max(np.abs(res.fun)))
                     if maxF > 1e-3:
@@ -206,6 +218,9 @@ class World(BaseWorld):
         pass
 
     def after_solve_attempt(self, *a):
+        pass
+
+    def op_post(self, *a):
         pass
 
     def install_closure_probes(self, *a):
